@@ -229,7 +229,9 @@ def expected_print(case, rec):
     D = case.D
     if case.sort_values:
         if D.repeated and any(vs != sorted(vs) for _, vs in rec.items):
-            return None, None
+            return None, None           # "sorted values" says nothing about the order of repeated keys
+        if fmt_of(D) == "gff3" and any(sorted(vs) != sorted(vs, key=pct) for _, vs in rec.items):
+            return None, None           # ... nor whether values are compared before or after escaping
         line = rec.line(D, sort_values=True)
     else:
         line = rec.line(D)
